@@ -222,6 +222,20 @@ def src_ctor_search(ctx):
     return len(ctx.failures) > n0
 
 
+def stored_depth_siblings(ctx, tag='stored-depth-siblings'):
+    """CLASS (round 10): siblings whose 2-byte depths interact byte-wise.  Pruned branches store the depth they answer with, so any
+    depth can stand next to any other under one ordinary / Merkle-update parent without building deep trees (gen/cells.py
+    stored_depth_siblings: every crossing pair of DEPTH_POINTS, byte-wise independent depths at masks 1-7, 2-4 siblings, such parents
+    as siblings again).  Each parent is judged on its own sub-DAG, so a failure replays a handful of cells."""
+    nodes, focus = G.stored_depth_siblings(ctx.rng, ctx.n(120, 600))
+    spec = G.spec_dag(nodes)
+    for t, i in enumerate(focus):
+        ds = [spec[j].D[0] for j in nodes[i][2] if spec[j] is not None and spec[j].valid]
+        if len(ds) >= 2:
+            ctx.count('sibling-depth-bytes:' + G.sibling_relation(ds))
+        check_dag(ctx, G.sub_dag(nodes, [i])[0], f'{tag}{t}', routes=('ctor',) if t % 4 else ('ctor', 'builder'), boc=(t % 16 == 0))
+
+
 def src_search(ctx):
     """Search mode only: the points where a regenerated definition (Generated/LevelMask.lean, CellArith.lean) differs from
     the function it is proved equal to, turned into exotic trees for the oracle.  True = a concrete failing input was found."""
@@ -272,6 +286,7 @@ def run(ctx):
     for dep in (1021, 1022, 1023, 65535):
         pb = G.pruned_bits(1, [rng.randbytes(32)], [dep])
         check_dag(ctx, [(G.PRUNED, pb, ()), (G.ORD, '', (0,)), (G.ORD, '', (1,))], f'pruned-depth{dep}', boc=False)
+    stored_depth_siblings(ctx)
     # the same at every mask and at every level the mask has: the limit applies to each level's depth, not to the last one
     for mask in range(1, 8):
         n = G.popcount(mask)
